@@ -8,6 +8,7 @@ from leanfmt import cps, lean_list, lean_str
 
 ID = "C20"
 LEAN_MODULES = ["EzdxfVerif.Props.C20"]
+DRIVER_DEPS = ["EzdxfVerif.Model.Text", "EzdxfVerif.Gen.TextTables", "Drivers.Proto"]
 RULE = (
     "correspondence: every string over a 12-symbol MTEXT control alphabet up to length 4 (quick) / 5 (thorough), "
     "command templates (\\\\X + all argument strings up to length 3 over a numeric alphabet), seeded random strings "
